@@ -1,6 +1,9 @@
-(* The input classes on which the builder does not produce well-formed code
-   (known findings, see /verif/known_findings.json), as decidable predicates on
-   proper trees, and the enumerations the bounded theorems quantify over. *)
+(* The input class on which the builder does not produce well-formed code
+   (C05-K2, not reachable from source text), as a decidable predicate on proper
+   trees, and the enumerations the bounded theorems quantify over.  (The former
+   class C05-K1 -- a body that compiles to nothing -- was repaired in build.rs,
+   commit b7aaffe: the closing EndExpression is no longer skipped when a jump
+   entry names the end of the stream.) *)
 From Coq Require Import List Arith Bool NArith.
 From GV Require Import Base.Result Gen.TokenTypes Gen.Defs Gen.Instr Model.Parser Model.BuilderWL Model.Compile.
 Import ListNotations.
@@ -19,31 +22,6 @@ Fixpoint silent (t : tree) : bool :=
 
 Definition opt_b (f : tree -> bool) (o : option tree) : bool :=
   match o with Some t => f t | None => false end.
-
-(* C05-K1: the body of a nested expression compiles to nothing: its end
-   instruction, EndExpression, equals the instruction in front of it (every
-   body ends in EndExpression or JumpTo, and the body emitted just before a
-   nested body may end in EndExpression), is elided, and the expression's jump
-   entry points past the stream or at the next body.  (Conditional arms and
-   right operands of && / || end in JumpTo, which is never elided.) *)
-Fixpoint has_empty_body (t : tree) : bool :=
-  match t with
-  | T _ d l r =>
-    (match kind_of d with
-     | KNested => opt_b silent r
-     | _ => false
-     end)
-    || opt_b has_empty_body l || opt_b has_empty_body r
-  end.
-
-(* the first body is empty and the data object's last instruction is the end
-   instruction of a first body: nothing is emitted (C20-K1, seen from C05) *)
-Definition empty_after_end (init : binit) (t : tree) : bool :=
-  silent t &&
-  match i_last_instr init with
-  | Some li => instr_eqb li (I_EndExpression, ONone)
-  | None => false
-  end.
 
 (* arms a subtree registers with its conditional parent *)
 Fixpoint registers (t : tree) : bool :=
@@ -70,8 +48,6 @@ Fixpoint drops_arms (t : tree) : bool :=
     || opt_b drops_arms l || opt_b drops_arms r
   end.
 
-Definition Known_C05_K1 (init : binit) (t : tree) : Prop :=
-  has_empty_body t = true \/ empty_after_end init t = true.
 Definition Known_C05_K2 (t : tree) : Prop := drops_arms t = true.
 
 (* --------------------------------------------------------- enumerations *)
